@@ -2528,3 +2528,83 @@ def res_is_err_and(ex, m, a, fr, dest):
     if o.variant != 1:
         return False
     return ex.call_closure(a[1], [o.fields[0]])
+
+
+@model(r'(?:core|std)::num::<impl (\w+)>::checked_(add|sub|mul)|(\w+)::checked_(add|sub|mul)')
+def int_checked_op(ex, m, a, fr, dest):
+    ty = m.group(1) or m.group(3)
+    op = m.group(2) or m.group(4)
+    if ty not in INT_BITS:
+        return NotImplemented
+    x, y = a[0], a[1]
+    if op == 'mul' and is_sym(x) and is_sym(y):
+        raise Unsupported('symbolic * symbolic')
+    v = x + y if op == 'add' else x - y if op == 'sub' else x * y
+    if ex.branch(in_range(v, ty), 'checked_' + op):
+        return some(v)
+    return none()
+
+
+@model(r'(?:core|std)::num::<impl (\w+)>::(saturating|wrapping)_(add|sub)|(\w+)::(saturating|wrapping)_(add|sub)')
+def int_sat_op(ex, m, a, fr, dest):
+    ty = m.group(1) or m.group(4)
+    mode = m.group(2) or m.group(5)
+    op = m.group(3) or m.group(6)
+    if ty not in INT_BITS:
+        return NotImplemented
+    v = a[0] + a[1] if op == 'add' else a[0] - a[1]
+    if ex.branch(in_range(v, ty), mode):
+        return v
+    if mode == 'wrapping':
+        return wrap(v, ty)
+    lo, hi = int_range(ty)
+    return hi if ex.branch(b_lt(hi, v), 'saturate high') else lo
+
+
+@model(r'(?:std::option::)?Option::<.*>::filter::<.*>')
+def opt_filter(ex, m, a, fr, dest):
+    o = a[0]
+    if o.variant == 0:
+        return none()
+    if ex.branch(ex.call_closure(a[1], [Ref(o.fields, 0)]), 'Option::filter'):
+        return o
+    return none()
+
+
+@model(r'(?:std::option::)?Option::<.*>::(or|xor)')
+def opt_or(ex, m, a, fr, dest):
+    o, p = a[0], a[1]
+    if m.group(1) == 'or':
+        return o if o.variant == 1 else p
+    if o.variant == 1 and p.variant == 0:
+        return o
+    if o.variant == 0 and p.variant == 1:
+        return p
+    return none()
+
+
+@model(r'(?:std::option::)?Option::<.*>::or_else::<.*>')
+def opt_or_else(ex, m, a, fr, dest):
+    o = a[0]
+    return o if o.variant == 1 else ex.call_closure(a[1], [])
+
+
+@model(r'(?:std::option::)?Option::<.*>::zip::<.*>')
+def opt_zip(ex, m, a, fr, dest):
+    o, p = a[0], a[1]
+    if o.variant == 1 and p.variant == 1:
+        return some(Agg('tuple', None, [o.fields[0], p.fields[0]]))
+    return none()
+
+
+@model(r'(?:std::option::)?Option::<.*>::(get_or_insert_with|insert)(?:::<.*>)?')
+def opt_insert(ex, m, a, fr, dest):
+    r = a[0]
+    o = r.get()
+    if m.group(1) == 'insert':
+        o = some(a[1])
+        r.set(o)
+    elif o.variant == 0:
+        o = some(ex.call_closure(a[1], []))
+        r.set(o)
+    return Ref(o.fields, 0, True)
